@@ -2,13 +2,26 @@ TECH = "bounded symbolic execution of the real code (CrossHair/z3), {what}; solv
 NOTE = ("Trusted: CrossHair path-tree exhaustion + z3; the symsched model of anyio (validated by running /repo/tests on it); "
         "the reference-model oracle in the harness. Claim holds only inside the stated bound (evidence.coverage.harnesses[].bound).")
 
+def _c(text, what):
+    return {"text": text, "note": NOTE, "technique": TECH.format(what=what)}
+
+
 CHECKS = {
-    "C01": {
-        "text": "For every program inside the bound (n<=3 callbacks x kinds x raising classes x pass_exception x block endings x root/nested x outer handler) "
-                "the real Context teardown agrees with the LIFO/once/one-at-a-time/outcome oracle; exhaustive within the bound, nothing outside it.",
-        "note": NOTE,
-        "technique": TECH.format(what="program shape and fault placement as solver variables"),
-    },
+    "C01": _c("For every program inside the bound (n<=3 callbacks x kinds x raising classes x pass_exception x block endings x root/nested x outer handler; "
+              "4 registration routes; registrations during teardown; cancellation at any checkpoint under all schedule prefixes) the real Context teardown "
+              "agrees with the LIFO/once/one-at-a-time/outcome oracle; exhaustive within the bound, nothing outside it.",
+              "program shape, fault placement and schedule prefix as solver variables"),
+    "C02": _c("Every history of K operations (K=3 quick, 4 thorough) over <=3 real contexts is executed and compared, after every step and by final generating "
+              "probes, with the snapshot-down/nothing-up-or-sideways model; exhaustive within the bound.",
+              "operation histories as solver variables (R-history)"),
+    "C03": _c("Every bounded history with conflicting and invalid adds keeps each context a partial function with stable identities and atomic failures; "
+              "plus a fully symbolic lemma on the name rule (any Unicode string up to the length bound).",
+              "operation histories as solver variables; symbolic strings for the name rule"),
+    "C04": _c("Every bounded history with sync/async single/multi-type factories, and every schedule prefix of 2-3 racing lookups, yields one factory call and one "
+              "object per (context, factory), owned by the requesting context.",
+              "operation histories and schedule prefixes as solver variables"),
+    "C18": _c("Every bounded history with listeners on all contexts yields exactly the model's event sequence per context.",
+              "operation histories as solver variables"),
 }
 
 _PENDING = "check not built yet in this round (planned: DESIGN.md section 7); not claimed until it runs"
